@@ -127,7 +127,7 @@ RenderTop(e, st) == IF st = 0 THEN Render(e, 0) ELSE <<" ">> \o Render(e, st) \o
 \* dt  ("i": built from integer literals only, "f": real)
 ZeroCnt == [l \in AllLetters |-> 0]
 An(e, kids, why, cnt, ln, dt) == [op |-> e.op, nm |-> e.nm, ix |-> e.ix, sg |-> e.sg, kids |-> kids,
-                                  why |-> why, cnt |-> cnt, ln |-> ln, dt |-> dt]
+                                  why |-> why, cnt |-> TLCEval(cnt), ln |-> TLCEval(ln), dt |-> dt]
 IxCnt(ix) == [l \in AllLetters |-> Cardinality({p \in 1..Len(ix) : ix[p] = l})]
 IxLen(ix, sh) == [l \in AllLetters |-> IF \E p \in 1..Len(ix) : ix[p] = l THEN sh[CHOOSE p \in 1..Len(ix) : ix[p] = l] ELSE 0]
 \* rules for a list of tokens labelling axes of lengths sh (Len(ix) = Len(sh))
@@ -152,11 +152,11 @@ KidLen(ks, l) == IF \E p \in 1..Len(ks) : ks[p].cnt[l] >= 1 THEN ks[CHOOSE p \in
 
 RECURSIVE Chk(_)
 Chk(e) ==
-  LET ks == [p \in 1..Len(e.kids) |-> Chk(e.kids[p])]
+  LET ks == TLCEval([p \in 1..Len(e.kids) |-> Chk(e.kids[p])])   \* (TLCEval: evaluate once, not at every use)
       kw == FirstWhy(ks, 1)
       n == Len(ks)
-      sumcnt == [l \in AllLetters |-> SeqSum([p \in 1..n |-> ks[p].cnt[l]], n)]
-      kidln == [l \in AllLetters |-> KidLen(ks, l)]
+      sumcnt == TLCEval([l \in AllLetters |-> SeqSum([p \in 1..n |-> ks[p].cnt[l]], n)])
+      kidln == TLCEval([l \in AllLetters |-> KidLen(ks, l)])
       alli == IF \A p \in 1..n : ks[p].dt = "i" THEN "i" ELSE "f"
       Fail(w) == An(e, ks, w, ZeroCnt, ZeroCnt, "f")
   IN
@@ -210,12 +210,17 @@ IntNegPow(n) == \/ \E p \in 1..Len(n.kids) : IntNegPow(n.kids[p])
                    /\ ~(n.nm = "int" /\ NumTab[n.kids[2].nm][1] >= 0)
 
 \* ------------------------------------------------------------------ the meaning (index notation)
+\* G(1) + ... + G(n),  G(1) * ... * G(n)   (no sequences: TLC would re-evaluate a lazy sequence at every Len)
+RECURSIVE SumTo(_, _)
+SumTo(G(_), n) == IF n = 0 THEN T2Zero ELSE T2Add(SumTo(G, n - 1), G(n))
+RECURSIVE ProdTo(_, _)
+ProdTo(G(_), n) == IF n = 0 THEN T2One ELSE T2Mul(ProdTo(G, n - 1), G(n))
 \* sum of F(env') over all assignments of the letters in L (lengths ln)
 RECURSIVE SumOver(_, _, _, _)
 SumOver(F(_), L, ln, env) ==
   IF L = {} THEN F(env)
   ELSE LET l == CHOOSE x \in L : TRUE IN
-       FoldSeq(T2Add, T2Zero, [m \in 1..ln[l] |-> SumOver(F, L \ {l}, ln, [env EXCEPT ![l] = m - 1])], 1)
+       SumTo(LAMBDA m : SumOver(F, L \ {l}, ln, [env EXCEPT ![l] = m - 1]), ln[l])
 TokPos(t, env) == IF IsDigit(t) THEN DigitVal[t] ELSE env[t]
 RECURSIVE Val(_, _)
 Val(n, env) ==
@@ -232,13 +237,14 @@ Val(n, env) ==
     [] n.op = "pow" -> T2Pow(Val(n.kids[1], env), Val(n.kids[2], env))
     [] n.op = "frac" -> T2Div(Val(n.kids[1], env), Val(n.kids[2], env))
     [] n.op = "term" ->
-         SumOver(LAMBDA en : FoldSeq(T2Mul, T2One, [p \in 1..Len(n.kids) |-> Val(n.kids[p], en)], 1),
+         SumOver(LAMBDA en : ProdTo(LAMBDA p : Val(n.kids[p], en), Len(n.kids)),
                  {l \in AllLetters : n.cnt[l] = 2 /\ \A p \in 1..Len(n.kids) : n.kids[p].cnt[l] < 2}, n.ln, env)
     [] n.op = "sum" ->
-         FoldSeq(T2Add, T2Zero, [p \in 1..Len(n.kids) |-> IF n.sg[p] = "-" THEN T2Neg(Val(n.kids[p], env)) ELSE Val(n.kids[p], env)], 1)
+         SumTo(LAMBDA p : IF n.sg[p] = "-" THEN T2Neg(Val(n.kids[p], env)) ELSE Val(n.kids[p], env), Len(n.kids))
 
 EnvOf(order, idx) == [l \in AllLetters |-> IF \E p \in 1..Len(order) : order[p] = l THEN idx[CHOOSE p \in 1..Len(order) : order[p] = l] ELSE 0]
 \* the array denoted by a valid annotated tree, axes in the given order of its free letters
-ArrOf(n, order) == MkArr([p \in 1..Len(order) |-> n.ln[order[p]]], LAMBDA idx : Val(n, EnvOf(order, idx)))
+XMk(sh, F(_)) == [sh |-> sh, v |-> TLCEval([k \in 1..Prod(sh) |-> F(Unflat(k - 1, sh))])]   \* an explicit (evaluated) array
+ArrOf(n, order) == XMk([p \in 1..Len(order) |-> n.ln[order[p]]], LAMBDA idx : Val(n, EnvOf(order, idx)))
 Reverse(s) == [p \in 1..Len(s) |-> s[Len(s) + 1 - p]]
 =============================================================================
